@@ -4,6 +4,7 @@ package http1
 
 import (
 	"context"
+	"strings"
 
 	internalStats "github.com/cloudwego/hertz/internal/stats"
 	zz "github.com/cloudwego/hertz/internal/zzverif"
@@ -12,6 +13,7 @@ import (
 	"github.com/cloudwego/hertz/pkg/common/tracer/traceinfo"
 	"github.com/cloudwego/hertz/pkg/network"
 	"github.com/cloudwego/hertz/pkg/network/standard"
+	"github.com/cloudwego/hertz/pkg/protocol"
 )
 
 // zzTracer records the call log of the real stats.Controller.
@@ -88,10 +90,23 @@ func zzAlternates(log []string) bool {
 // operation index), keep-alive or close, idle timeout zero / non-zero.
 func ZZ_C19_H1() {
 	k := zz.Range("k", 1, zz.Param("K", 2))
+	// the application's ContinueHandler declines every Expect: 100-continue request: it is
+	// answered 417 without its body being read, and the client - as the expectation mechanism
+	// has it - does not send the body
+	declines, asked := false, false
 	var wire []byte
 	var uris []string
 	for i := 0; i < k; i++ {
 		t := zz.Choose("tmpl", len(zzTemplates)+2)
+		if (t == 4 || t == 7) && !asked {
+			declines, asked = zz.Choose("continueHandlerDeclines", 2) == 1, true
+		}
+		if declines && (t == 4 || t == 7) {
+			w := zzTemplates[t].wire
+			wire = append(wire, w[:strings.Index(w, "\r\n\r\n")+4]...)
+			uris = append(uris, zzTemplates[t].uri)
+			continue
+		}
 		if t >= len(zzTemplates) {
 			// malformed header block: refused with a 4xx before any handler
 			wire = append(wire, []string{"GET /m HTTP/1.1\r\nBad Header\r\n\r\n", "GET /n HTTP/1.1\r\nHost: h\r\nContent-Length: x\r\n\r\n"}[t-len(zzTemplates)]...)
@@ -168,6 +183,9 @@ func ZZ_C19_H1() {
 	s.HijackConnHandle = func(c network.Conn, h app.HijackHandler) { h(c) }
 	s.StreamRequestBody = zz.Choose("stream", 2) == 1
 	s.DisableKeepalive = zz.Choose("nokeepalive", 2) == 1
+	if declines {
+		s.ContinueHandler = func(h *protocol.RequestHeader) bool { return false }
+	}
 	// (crossed with handler outcomes, not with injected I/O faults: keeps the quick tier small)
 	if fault == 0 && zz.Choose("tinyBodyLimit", 2) == 1 {
 		s.MaxRequestBodySize = 1 // bodies of the POST templates are refused as too large
@@ -191,6 +209,67 @@ func ZZ_C19_H1() {
 	zz.Assert("each-handled-request-bracketed-by-its-own-pair", ok)
 	// no pair without a request: at most one start per request the peer sent (stray line ends
 	// before the connection closes are not a request)
+	zz.Assert("no-pair-without-a-request", len(tr.log) <= 2*len(uris))
+	zz.Assert("stages-ordered-and-finished", tr.stagesOK)
+}
+
+// ZZ_C19_H3: three requests on one keep-alive connection (the per-request reset of the trace
+// data happens between requests, so an effect that needs two resets only shows on the third):
+// each of plain GET, POST with a body, and a malformed header block; every pair carries its own
+// request's data and stage events only.
+func ZZ_C19_H3() {
+	var wire []byte
+	var uris []string
+	for i := 0; i < 3; i++ {
+		t := zz.Choose("tmpl", 3)
+		switch t {
+		case 0:
+			wire = append(wire, zzTemplates[0].wire...)
+			uris = append(uris, zzTemplates[0].uri)
+		case 1:
+			wire = append(wire, zzTemplates[1].wire...)
+			uris = append(uris, zzTemplates[1].uri)
+		case 2:
+			wire = append(wire, "GET /m HTTP/1.1\r\nBad Header\r\n\r\n"...)
+			uris = append(uris, "/malformed")
+		}
+		if t == 2 {
+			break
+		}
+	}
+	nc := zz.NewNetConn(wire)
+	tr := &zzTracer{stagesOK: true}
+	ctl := &internalStats.Controller{}
+	ctl.Append(tr)
+	var handled []string
+	core := zzNewCore(nil)
+	core.handler = func(c context.Context, ctx *app.RequestContext) {
+		handled = append(handled, string(ctx.Request.RequestURI()))
+		ctx.Response.SetBodyString("ok")
+	}
+	core.tracer = ctl
+	core.pool.New = func() interface{} {
+		ctx := app.NewContext(0)
+		ti := traceinfo.NewTraceInfo()
+		ti.Stats().SetLevel(stats.LevelDetailed)
+		ctx.SetTraceInfo(ti)
+		return ctx
+	}
+	s := zzNewServer(core)
+	s.EnableTrace = true
+	s.IdleTimeout = 1
+	s.StreamRequestBody = zz.Choose("stream", 2) == 1
+	_ = s.Serve(context.Background(), standard.ZZNewConn(nc))
+	zz.Cover("reached-assert", true)
+	zz.Cover("three-pairs", len(tr.log) == 6)
+	zz.Assert("start-finish-alternate", zzAlternates(tr.log))
+	ok := true
+	for i, u := range handled {
+		if 2*i+1 >= len(tr.log) || tr.log[2*i+1] != "F:"+u {
+			ok = false
+		}
+	}
+	zz.Assert("each-handled-request-bracketed-by-its-own-pair", ok)
 	zz.Assert("no-pair-without-a-request", len(tr.log) <= 2*len(uris))
 	zz.Assert("stages-ordered-and-finished", tr.stagesOK)
 }
